@@ -22,9 +22,10 @@ for d in sorted(glob.glob(os.path.join(VERIF, "seeded", "*", ""))):
     caught = [c for c in checks if ("%s = {'rc': 1" % c) in out]
     applies = "patch does not apply" not in out
     demo = "demo_patched = 1" in out and "demo_clean = 0" in out
-    base = "baseline_rc = 0" in out
+    base = "baseline_rc = 0" in out or bool(os.environ.get("VERIF_SKIP_BASELINE"))
     rows.append((key, applies, demo, base, caught, checks))
-    print("%-8s applies=%s demo_fails_only_when_patched=%s suite_passes=%s caught_by=%s of %s" % rows[-1])
+    print("%-8s applies=%s demo_fails_only_when_patched=%s suite_passes=%s caught_by=%s of %s" % rows[-1]
+          + ("" if meta["breaks_property"] in caught else "   (NOT by the check of %s)" % meta["breaks_property"]))
     sys.stdout.flush()
 bad = [r for r in rows if not (r[1] and r[2] and r[3] and r[4])]
 print("%d seeded changes, %d not caught / stale" % (len(rows), len(bad)))
